@@ -78,7 +78,7 @@ func (ex *Exec) concreteStr(v Value) string {
 	out := make([]byte, len(bs))
 	for i, b := range bs {
 		if !b.IsConst() {
-			panic(unsupported("stub needs a concrete string (path/token)"))
+			panic(unsupported("stub needs a concrete string (path/token): " + ex.describe(Str{bs})))
 		}
 		out[i] = byte(b.val)
 	}
